@@ -180,7 +180,7 @@ def impl_oracle(c):
 
 
 def run(ck):
-    n = 600 if not ck.thorough else 5000
+    n = 480 if not ck.thorough else 5000
     ck.gen()
     built = ck.coq_make(MODEL + PROOFS, clean=ck.thorough)
     ck.obligations = ck.count_statements(STATEMENT_FILES)
@@ -203,17 +203,20 @@ def run(ck):
         for line in out.splitlines():
             if line.startswith("{"):
                 cases.append(json.loads(line))
-    if ck.thorough and binp:
-        # the same histories under the race detector (ownership discipline)
+    if binp and replayed is None:
+        # histories under the race detector (ownership of the pending table and of a fetched exchange;
+        # cancelled callers whose reply arrives late; forced early replies): child mode, so that the
+        # detector's report on stderr is ours
         rb = ck.build_harness("c03", race=True)
         if rb:
-            rc, out, err = vlib.sh2([rb, "-seed", str(ck.seed + 1), "-n", "400"], timeout=3000)
+            nr = 40 if not ck.thorough else 400
+            rc, out, err = vlib.sh2([rb, "-seed", str(ck.seed + 1), "-n", str(nr), "-child"], timeout=3000)
             races = err.count("WARNING: DATA RACE")
-            ck.coverage["race_detector_runs"] = 400
+            ck.coverage["race_detector_runs"] = nr
             ck.coverage["data_races"] = races
             if races:
                 ck.violation("impl:data-race", "the race detector reports a data race in the transport",
-                             {"stderr": err[-3000:]})
+                             {"race_report": err[err.find("WARNING: DATA RACE"):][:3000]})
 
     kinds = {}
     shrunk = set()
